@@ -46,7 +46,7 @@ Lex == <<
     <<79, 80, 84, 73, 79, 78, 83, 32, 42, 32, 72, 84, 84, 80, 47, 49, 46, 49, 13, 10>>,   \*  5 'OPTIONS * HTTP/1.1\r\n' asterisk-form
     <<71, 69, 84, 32, 42, 32, 72, 84, 84, 80, 47, 49, 46, 49, 13, 10>>,   \*  6 'GET * HTTP/1.1\r\n' asterisk-form with GET: reject
     <<67, 79, 78, 78, 69, 67, 84, 32, 97, 58, 56, 48, 32, 72, 84, 84, 80, 47, 49, 46, 49, 13, 10>>,   \*  7 'CONNECT a:80 HTTP/1.1\r\n' authority-form
-    <<103, 101, 116, 32, 47, 32, 72, 84, 84, 80, 47, 49, 46, 49, 13, 10>>,   \*  8 'get / HTTP/1.1\r\n' lower-case method (dev)
+    <<103, 101, 116, 32, 47, 32, 72, 84, 84, 80, 47, 49, 46, 49, 13, 10>>,   \*  8 'get / HTTP/1.1\r\n' lower-case method (alt)
     <<71, 69, 84, 32, 47, 0, 32, 72, 84, 84, 80, 47, 49, 46, 49, 13, 10>>,   \*  9 'GET /\x00 HTTP/1.1\r\n' NUL in target (dev)
     <<71, 69, 84, 32, 32, 47, 32, 72, 84, 84, 80, 47, 49, 46, 49, 13, 10>>,   \* 10 'GET  / HTTP/1.1\r\n' two SP: reject
     <<71, 69, 84, 32, 47, 32, 72, 84, 84, 80, 47, 49, 46, 49, 10>>,   \* 11 'GET / HTTP/1.1\n' bare LF: reject
@@ -63,7 +63,7 @@ Lex == <<
     <<67, 111, 110, 116, 101, 110, 116, 45, 76, 101, 110, 103, 116, 104, 58, 32, 48, 13, 10>>,   \* 22 'Content-Length: 0\r\n' 
     <<67, 111, 110, 116, 101, 110, 116, 45, 76, 101, 110, 103, 116, 104, 58, 32, 50, 13, 10>>,   \* 23 'Content-Length: 2\r\n' second value
     <<84, 114, 97, 110, 115, 102, 101, 114, 45, 69, 110, 99, 111, 100, 105, 110, 103, 58, 32, 99, 104, 117, 110, 107, 101, 100, 13, 10>>,   \* 24 'Transfer-Encoding: chunked\r\n' 
-    <<84, 114, 97, 110, 115, 102, 101, 114, 45, 69, 110, 99, 111, 100, 105, 110, 103, 58, 32, 103, 122, 105, 112, 44, 32, 99, 104, 117, 110, 107, 101, 100, 13, 10>>,   \* 25 'Transfer-Encoding: gzip, chunked\r\n' (dev)
+    <<84, 114, 97, 110, 115, 102, 101, 114, 45, 69, 110, 99, 111, 100, 105, 110, 103, 58, 32, 103, 122, 105, 112, 44, 32, 99, 104, 117, 110, 107, 101, 100, 13, 10>>,   \* 25 'Transfer-Encoding: gzip, chunked\r\n' (alt)
     <<84, 114, 97, 110, 115, 102, 101, 114, 45, 69, 110, 99, 111, 100, 105, 110, 103, 58, 32, 99, 104, 117, 110, 107, 101, 100, 44, 32, 99, 104, 117, 110, 107, 101, 100, 13, 10>>,   \* 26 'Transfer-Encoding: chunked, chunked\r\n' reject
     <<84, 114, 97, 110, 115, 102, 101, 114, 45, 69, 110, 99, 111, 100, 105, 110, 103, 58, 32, 120, 99, 104, 117, 110, 107, 101, 100, 13, 10>>,   \* 27 'Transfer-Encoding: xchunked\r\n' reject
     <<84, 114, 97, 110, 115, 102, 101, 114, 45, 69, 110, 99, 111, 100, 105, 110, 103, 58, 32, 99, 104, 117, 110, 107, 101, 100, 44, 32, 103, 122, 105, 112, 13, 10>>,   \* 28 'Transfer-Encoding: chunked, gzip\r\n' reject
